@@ -45,4 +45,13 @@ CHECKS = {
           "barlines, staves without clef, irregular measures, pickups, late first elements, musical-beat mode, gen_score parts and fixtures.",
   "note": "Trusted: vmon/refmodels/sigmaps.py. Measure gaps / beyond the last measure / first measure without its signature at the start are don't-care.",
  },
+ "C05": {
+  "technique": "post-condition hooks on the real note/rest array builders; cell-by-cell comparison with an independent row builder over the timeline + exact C02/C10 models",
+  "text": "Hooks on note_array_from_part, rest_array_from_part and note_array_from_part_list compare every returned structured "
+          "array cell by cell (matched by id) with rows built by walking the registered objects: tie chains merged, grace notes "
+          "zero-length, exact quarter/beat values, spelled pitch, voice/staff, key/time signature, metrical position, divs_pq, "
+          "lcm rescaling and id prefixes for score-level arrays, row order. Inverse direction: note_array_to_score on generated "
+          "arrays with beat-only, div-only and both time columns must return the same onsets, durations and pitches.",
+  "note": "Trusted: vmon/refmodels/timemaps.py, sigmaps.py, pitch.py. f4 columns compared with rel. tol. 2e-6; cells of notes without voice/staff are don't-care.",
+ },
 }
